@@ -1,5 +1,9 @@
 //! verif — property-based testing / fuzzing harness for autosar-data (one sub-command per property)
 mod adoc;
+mod audit;
+mod hist;
+mod histprops;
+mod inv;
 mod c01;
 mod c02;
 mod c08;
@@ -89,6 +93,11 @@ fn main() {
                         "C02" => c02::replay(&ctx, &case),
                         "C08" => c08::replay(&ctx, &case),
                         "C20" => c20::replay(&ctx, &case),
+                        "C03" => histprops::replay(&ctx, histprops::Prop::C03, &case),
+                        "C04" => histprops::replay(&ctx, histprops::Prop::C04, &case),
+                        "C05" => histprops::replay(&ctx, histprops::Prop::C05, &case),
+                        "C10" => histprops::replay(&ctx, histprops::Prop::C10, &case),
+                        "C11" => histprops::replay(&ctx, histprops::Prop::C11, &case),
                         "C18" => c18::replay(&ctx, &case),
                         "C19" => c19::replay(&ctx, &case),
                         _ => usage(),
@@ -99,6 +108,11 @@ fn main() {
                         "C02" => c02::run(&ctx),
                         "C08" => c08::run(&ctx),
                         "C20" => c20::run(&ctx),
+                        "C03" => histprops::run(&ctx, histprops::Prop::C03),
+                        "C04" => histprops::run(&ctx, histprops::Prop::C04),
+                        "C05" => histprops::run(&ctx, histprops::Prop::C05),
+                        "C10" => histprops::run(&ctx, histprops::Prop::C10),
+                        "C11" => histprops::run(&ctx, histprops::Prop::C11),
                         "C18" => c18::run(&ctx),
                         "C19" => c19::run(&ctx),
                         _ => usage(),
